@@ -24,6 +24,9 @@ CONSTANTS
   WriteErrKeepsEntry = FALSE
   AllowFire = TRUE
   FireRegisters = FALSE
+  RFault = TRUE
+  ReadErrEndsCalls = FALSE
+  LoopSurvivesClose = FALSE
   MaxTry = 2
 INVARIANTS EmitWhenQuiet
 CHECK_DEADLOCK FALSE
